@@ -1261,6 +1261,43 @@ func emitConsts(root, outDir string) error {
 			return true
 		})
 	}
+	// how the drive is opened for writing (pkg/tape/write.go, OpenTapeWriteOnly): every os.OpenFile call with its flag
+	// expression; "returned" = assigned to the result f with '=', "temporary" = a local opened with ':=' and closed again
+	opens := [][2]string{}
+	if src, err := os.ReadFile(filepath.Join(root, "pkg/tape/write.go")); err == nil {
+		fset := token.NewFileSet()
+		if f, err := parser.ParseFile(fset, "write.go", src, 0); err == nil {
+			ast.Inspect(f, func(n ast.Node) bool {
+				as, ok := n.(*ast.AssignStmt)
+				if !ok || len(as.Rhs) != 1 {
+					return true
+				}
+				ce, ok := as.Rhs[0].(*ast.CallExpr)
+				if !ok || len(ce.Args) < 2 {
+					return true
+				}
+				se, ok := ce.Fun.(*ast.SelectorExpr)
+				if !ok || se.Sel.Name != "OpenFile" {
+					return true
+				}
+				kind := "temporary"
+				if as.Tok == token.ASSIGN {
+					kind = "returned"
+				}
+				a := ce.Args[1]
+				opens = append(opens, [2]string{kind, strings.ReplaceAll(string(src[fset.Position(a.Pos()).Offset:fset.Position(a.End()).Offset]), " ", "")})
+				return true
+			})
+		}
+	}
+	b.WriteString("Definition tape_writer_opens : list (string * string) := [")
+	for i, r := range opens {
+		if i > 0 {
+			b.WriteString("; ")
+		}
+		fmt.Fprintf(&b, "(%s, %s)", q(r[0]), q(r[1]))
+	}
+	b.WriteString("].\n")
 	b.WriteString("Definition index_store_pool : list (string * string) := [")
 	for i, r := range pool {
 		if i > 0 {
